@@ -73,6 +73,7 @@ type VC struct {
 	assumed  map[string]bool // contracts assumed (externs, trusted, callee contracts)
 	recs     map[string]*recInfo
 	replay   *replayPlan
+	replayGlobalsFrom int
 }
 
 type epochSrc struct {
@@ -362,7 +363,12 @@ func (vc *VC) queryFor(o *Obl) string {
 		sb.WriteString(d)
 		sb.WriteByte('\n')
 	}
-	for _, d := range vc.globals {
+	globals := vc.globals
+	if vc.replayGlobalsFrom > 0 && vc.replayGlobalsFrom < len(globals) {
+		// declarations added only for counterexample replay are not part of proof queries
+		globals = globals[:vc.replayGlobalsFrom]
+	}
+	for _, d := range globals {
 		sb.WriteString(d)
 		sb.WriteByte('\n')
 	}
